@@ -58,11 +58,7 @@ def check_next(ctx, F, hty, size_off, label, rule_prefix="T"):
     else:
         ctx.fail(rule_prefix + "2", label + ":header-address", "exactly one raw pointer addition in next()", A.site(), "%d" % len(adds))
     # write
-    writes = []
-    for bb in sorted(b.reachable):
-        for si, st in enumerate(b.stmts(bb)):
-            if st["k"] == "assign" and st["lhs"]["l"] == 1 and st["lhs"].get("p"):
-                writes.append((bb, st["lhs"]["p"][1].get("n"), A.tb.rvalue(st["rv"], (bb, si), st)))
+    writes = [(bb, name, val) for (bb, si, name, val) in an.writes_through(A, 1)]
     g5 = len(writes) == 1 and writes[0][1] == "next_tag_offset" and bool(somes) and b.dominates(writes[0][0], somes[0].bb) and \
         bool(nones) and not b.dominates(writes[0][0], nones[0].bb)
     ctx.check(g5, rule_prefix + "5", label + ":writes", "next() writes only next_tag_offset, once, on the path that yields an item; the None path writes nothing",
